@@ -11,11 +11,14 @@ Line-protocol driver for the AD model (property C02).
   dynid <n> (<q> <s>)…                   -> row:i:j,…
   sysmap <token lists: teqs… ; meqs… ; tv ; shocks ; mvars ; mshocks>   -> A=…|B=…|D=…|F=…|G=…|J=…
   stacked <spots> <cols> <eqs…>          -> entries
+  sysmat F <logly bits> <ndata> (q s val)… <tv> <neq> (<wrt> <expr>)…  -> A=row;row|B=row;row   (dense, bits)   | err:rejected
+  evhist (f|j|e):<point id> …             -> the point in force at every observation
   termspots <cols> <qids> <last> <n (q maxshift)…>  -> inx:q:c,…     (Terminator.__init__)
   termjac <wrt spots> <terminit spots>   -> lhsCol:rhsCol,…            (create_terminal_jacobian_map)
 Entries print as `lhsRow:lhsCol:rhsRow:rhsCol`.
 -/
 import IrisVerif.Model.Expr
+import IrisVerif.Model.ADSystem
 import IrisVerif.Driver.Util
 
 open IrisVerif IrisVerif.AD IrisVerif.Driver
@@ -137,6 +140,27 @@ def runAd (pv : P α) (sv : α → String) (dflt : α) (ext : Fn1 → α → α)
 
 end
 
+/-- `sysmat`: A and B (transition equations, without dynamic identities) of one variant, dense, row-major -/
+def runSysmat {α : Type} [Add α] [Sub α] [Mul α] [Div α] [Neg α] [NatCast α] [IntCast α] [ADFun α]
+    (pv : P α) (sv : α → String) (dflt zero : α) (ext : Fn1 → α → α) (ws : List String) : Option String := do
+  let (bits, ws) ← (match ws with | w :: ws => some (w, ws) | [] => none)
+  let (data, ws) ← pCounted (fun ws => do
+    let (t, ws) ← pToken ws
+    let (v, ws) ← pv ws
+    pure ((t, v), ws)) ws
+  let (tv, ws) ← pCounted pToken ws
+  let (eqs, ws) ← pCounted (fun ws => do
+    let (wrt, ws) ← pCounted pToken ws
+    let (e, ws) ← pExpr pv (ws.length + 1) ws
+    pure ((e, wrt), ws)) ws
+  if !ws.isEmpty then none
+  match systemAB (lookup dflt data) (loglyOf bits) ext eqs tv zero with
+  | none => pure "err:rejected"
+  | some (a, b) =>
+    let show_ (m : Nat → Nat → α) : String :=
+      ";".intercalate ((List.range eqs.length).map (fun r => ",".intercalate ((List.range tv.length).map (fun c => sv (m r c)))))
+    pure ("A=" ++ show_ a ++ "|B=" ++ show_ b)
+
 /-! carriers -/
 
 def pXRat : P XRat
@@ -170,6 +194,10 @@ instance : IntCast Float := ⟨fun i => Float.ofInt i⟩
 open FloatCarrier in
 def runAdFloat (ws : List String) : Option String :=
   runAd (α := Float) pFloat showFloat (0.0 / 0.0) extFloat ws
+
+open FloatCarrier in
+def runSysmatFloat (ws : List String) : Option String :=
+  runSysmat (α := Float) pFloat showFloat (0.0 / 0.0) 0.0 extFloat ws
 
 def runAdXRat (ws : List String) : Option String :=
   runAd (α := XRat) pXRat showXRat none extXRat ws
@@ -225,6 +253,17 @@ def step (line : String) : String :=
       let (tv, ws) ← pCounted pToken ws
       if !ws.isEmpty then none
       pure (",".intercalate ((dynid tv).map (fun r => toString r.1 ++ ":" ++ toString r.2.1 ++ ":" ++ toString r.2.2)))
+    | "sysmat" :: "F" :: ws => runSysmatFloat ws
+    | "evhist" :: ws => do
+      -- ops `f:<id>` `j:<id>` `e:<id>` on point ids: which point is in force at every observation
+      let ops ← ws.mapM (fun w => match w.splitOn ":" with
+        | ["f", n] => n.toNat?.map EvOp.evalFunc
+        | ["j", n] => n.toNat?.map EvOp.evalJacob
+        | ["e", n] => n.toNat?.map EvOp.evalBoth
+        | _ => none)
+      let outs := evRun (fun (p : Nat) => p) (fun (p : Nat) => p) 0 ops
+      pure (" ".intercalate (outs.map (fun o => match o with
+        | .func f => "f:" ++ toString f | .jacob j => "j:" ++ toString j | .both f j => "e:" ++ toString f ++ ":" ++ toString j)))
     | "termspots" :: ws => do
       let (cols, ws) ← pCounted pInt ws
       let (qids, ws) ← pCounted pNat ws
